@@ -67,6 +67,12 @@ def cases(tier, rng):
         yield {'codec': codec, 'chunks': [{'rep': '6162636465666768', 'n': 2500000}], 'cuts': [100], 'truncate': None}
     yield {'codec': 'zstd', 'chunks': [], 'cuts': [], 'truncate': None}
     for codec in ('gzip', 'zstd'):
+        # tens of MiB out of a few KiB of compressed input, whole, in two halves, trailer apart, and truncated: judged by the
+        # oracle on the real code only (too large for the model's list-based transcript replay)
+        for n, cuts, trunc in ((12 << 20, [], None), (24 << 20, 'half', None), (12 << 20, 'trailer', None), (40 << 20, [7], None),
+                               (12 << 20, [], 'last')):
+            yield {'codec': codec, 'chunks': [{'rep': '6162636465666768', 'n': n}], 'cuts': cuts, 'truncate': trunc, 'oracle_only': True}
+    for codec in ('gzip', 'zstd'):
         small = [b'ab', b'', b'cdefg' * 3]
         z = compress_real(codec, small)[0]
         n = len(z)
@@ -110,6 +116,10 @@ def _events(r):
 def _cuts(case, z):
     if case['cuts'] == 'end-empty':
         return [len(z)]
+    if case['cuts'] == 'half':
+        return [len(z) // 2]
+    if case['cuts'] == 'trailer':
+        return [max(len(z) - 8, 0)]
     return case['cuts']
 
 
@@ -117,8 +127,27 @@ def real(case):
     codec = case['codec']
     chunks = [_chunk(c) for c in case['chunks']]
     z, rc, _ = compress_real(codec, chunks)
+    if case['truncate'] == 'last':
+        case = dict(case, truncate=len(z) - 3)
     zz = z if case['truncate'] is None else z[:case['truncate']]
     pieces = cut(zz, _cuts(case, zz))
+    if case.get('oracle_only'):
+        # large expansion: keep only what the oracle needs (no per-byte lists)
+        import rx
+        import hashlib
+        st = {'end': 'open', 'n': 0}
+        h = hashlib.sha256()
+
+        def on_next(x):
+            st['n'] += len(x)
+            h.update(bytes(x))
+        rx.from_(pieces).pipe(MOD[codec].decompress()).subscribe(
+            on_next=on_next, on_error=lambda e: st.update(end='error:' + type(e).__name__), on_completed=lambda: st.update(end='completed'))
+        plain = b''.join(chunks)
+        ok_c = (gzip.decompress(z) if codec == 'gzip' else zstandard.ZstdDecompressor().decompressobj().decompress(z)) == plain
+        return {'oracle_only': True, 'compress_ok': ok_c and rc['end'] == 'completed', 'end': st['end'], 'got_len': st['n'],
+                'got_ok': h.hexdigest() == hashlib.sha256(plain).hexdigest(), 'plain_len': len(plain), 'zlen': len(z),
+                'truncate': case['truncate'], 'pieces': [len(p) for p in pieces]}
     if case.get('twice'):
         # the same decompress pipeline subscribed a second time (a retry / second consumer): judged on the second run
         import rx
@@ -165,6 +194,8 @@ def transcript(codec, chunks, pieces):
 
 
 def model_cmds(case):
+    if case.get('oracle_only'):
+        return []
     codec = case['codec']
     chunks = [_chunk(c) for c in case['chunks']]
     z = compress_real(codec, chunks)[0]
@@ -177,6 +208,8 @@ def model_cmds(case):
 
 
 def model_result(case, ans):
+    if case.get('oracle_only'):
+        return {}
     for a in ans:
         if 'error' in a:
             return {'model_error': a['error']}
@@ -190,6 +223,8 @@ def _norm(evs):
 def compare(case, r, m):
     if 'harness_exc' in r:
         return 'harness: ' + r['harness_exc']
+    if case.get('oracle_only'):
+        return None
     if 'model_error' in m:
         return 'model: ' + m['model_error']
     for k in ('c_events', 'd_events'):
@@ -205,6 +240,16 @@ def oracle(case, r):
     if 'harness_exc' in r:
         return 'real code raised: ' + r['harness_exc']
     codec = case['codec']
+    if r.get('oracle_only'):
+        if not r['compress_ok']:
+            return '%s.compress of one %d byte chunk is not a valid standalone stream of the input' % (codec, r['plain_len'])
+        if r['truncate'] is None:
+            if r['end'] != 'completed' or not r['got_ok']:
+                return ('%s.decompress over a %d byte compressed stream (expanding to %d bytes) cut into pieces of sizes %s ended with %s '
+                        'after %d bytes, expected completion and the input' % (codec, r['zlen'], r['plain_len'], r['pieces'], r['end'], r['got_len']))
+        elif not r['end'].startswith('error:'):
+            return '%s.decompress of a stream truncated at byte %d of %d ended with %s, expected on_error' % (codec, r['truncate'], r['zlen'], r['end'])
+        return None
     chunks = [_chunk(c) for c in case['chunks']]
     plain = b''.join(chunks)
     z = bytes.fromhex(r['z'])
@@ -231,7 +276,7 @@ def oracle(case, r):
 
 
 def nontrivial(case, r):
-    return len(case['chunks']) >= 2 or (case['cuts'] != 'end-empty' and len(case['cuts']) >= 1)
+    return len(case['chunks']) >= 2 or (isinstance(case['cuts'], list) and len(case['cuts']) >= 1) or bool(case.get('oracle_only'))
 
 
 def tags(case, r):
